@@ -215,6 +215,10 @@ func (t *f4RuneTrace) object(root ssa.Value, load ssa.Instruction, path []c08Sel
 		t.fieldBased(path, depth)
 		return
 	}
+	name := c08Describe(root)
+	if al.Comment != "" {
+		name = "the local variable " + al.Comment
+	}
 	found, dominated := false, false
 	for _, i := range t.prov.byRoot[al] {
 		s := t.prov.stores[i]
@@ -233,9 +237,9 @@ func (t *f4RuneTrace) object(root ssa.Value, load ssa.Instruction, path []c08Sel
 	}
 	switch {
 	case !found:
-		t.failf("the value is read from %s which is never set (zero value)", c08Describe(root))
+		t.failf("the value is read from %s which is never set (zero value)", name)
 	case load != nil && !dominated:
-		t.failf("the value is read from %s which is not set on every path to the read (zero value)", c08Describe(root))
+		t.failf("the value is read from %s which is not set on every path to the read (zero value)", name)
 	}
 }
 
